@@ -20,6 +20,7 @@ import (
 	"sort"
 	"strconv"
 	"strings"
+	"sync"
 	"testing"
 	"time"
 
@@ -72,7 +73,10 @@ type vOp struct {
 	// the two write transactions (second never runs); 3 = the second write transaction runs and is rolled back;
 	// 4 = the store object is re-created (restart) before a plain Add; 100+k = the k-th shelf operation of this Add
 	// fails with a storage error. Adds with 1..3 / 100+k return an error and the generator always re-delivers the
-	// event later.
+	// event later. 51 / 52 = this Add OVERLAPS the next arrival: it runs in its own goroutine and is parked right before
+	// its 1st / 2nd KVStore.Write call until the next arrival's Add has completed (a forced two-thread schedule; the
+	// write transactions are serialised by the store, so the outcome must be that of SOME sequential order: here
+	// "next arrival first").
 	Fail    []int    `json:"fail,omitempty"`
 	Times   []int64  `json:"times"`   // resolve times to probe
 	Probes  []vProbe `json:"probes,omitempty"`
@@ -641,6 +645,70 @@ func vAddFailing(s *store, e vGenEvent, code int) (err error, fired bool) {
 	return err, f != nil && f.fired
 }
 
+// vGateDB steers scheduling only: the k-th Write CALL after arming is parked (before it reaches the real store, so
+// no lock is held) until release is closed. Everything else passes through.
+type vGateDB struct {
+	stoabs.KVStore
+	mu      sync.Mutex
+	armed   bool
+	calls   int
+	at      int
+	parked  chan struct{}
+	release chan struct{}
+}
+
+func (g *vGateDB) Write(ctx context.Context, fn func(stoabs.WriteTx) error, opts ...stoabs.TxOption) error {
+	g.mu.Lock()
+	park := false
+	if g.armed {
+		g.calls++
+		if g.calls == g.at {
+			g.armed = false
+			park = true
+		}
+	}
+	g.mu.Unlock()
+	if park {
+		close(g.parked)
+		<-g.release
+	}
+	return g.KVStore.Write(ctx, fn, opts...)
+}
+
+// vAddOverlapping: Add(a) starts in its own goroutine and is parked before its at-th Write call; Add(b) then runs to
+// completion on the same store object; then a is released. fired = a really was parked (else a simply ran first).
+func vAddOverlapping(s *store, a, b vGenEvent, at int) (errA, errB error, fired bool) {
+	real := s.db
+	defer func() { s.db = real }()
+	g := &vGateDB{KVStore: real, armed: true, at: at, parked: make(chan struct{}), release: make(chan struct{})}
+	s.db = g
+	safe := func(e vGenEvent) (err error) {
+		defer func() {
+			if r := recover(); r != nil {
+				err = fmt.Errorf("panic: %v", r)
+			}
+		}()
+		return s.Add(e.doc, e.tx)
+	}
+	done := make(chan error, 1)
+	go func() { done <- safe(a) }()
+	select {
+	case <-g.parked:
+		fired = true
+	case errA = <-done:
+		// a finished without reaching the gate (fewer Write calls than expected): disarm, so that b is not parked
+		g.mu.Lock()
+		g.armed = false
+		g.mu.Unlock()
+	}
+	errB = safe(b)
+	if fired {
+		close(g.release)
+		errA = <-done
+	}
+	return errA, errB, fired
+}
+
 func vToOpEvents(evs []vGenEvent) ([]vEvent, []int64, map[string]did.DID) {
 	var out []vEvent
 	timesSet := map[int64]bool{}
@@ -871,10 +939,33 @@ func TestVerifC10(t *testing.T) {
 		}
 		vSortIterate = backend == "redis" // redis SCAN has no key order: the order of Iterate is the backend's, not the store's
 		addErrs := ""
+		skip := false
 		for pos, k := range arrival {
+			if skip {
+				skip = false
+				continue
+			}
 			code := 0
 			if pos < len(fail) {
 				code = fail[pos]
+			}
+			if code == 51 || code == 52 {
+				if pos+1 < len(arrival) && fail[pos+1] == 0 {
+					errA, errB, fired := vAddOverlapping(s, evs[k], evs[arrival[pos+1]], code-50)
+					if !fired {
+						fail[pos] = 0 // never parked: the two Adds simply ran one after the other
+					}
+					if errA != nil {
+						addErrs += fmt.Sprintf("adderr@%d(ev%d) ", pos, k)
+					}
+					if errB != nil {
+						addErrs += fmt.Sprintf("adderr@%d(ev%d) ", pos+1, arrival[pos+1])
+					}
+					skip = true
+					continue
+				}
+				fail[pos] = 0
+				code = 0
 			}
 			if code == 4 { // restart: a new store object on the same database, then a plain Add
 				ns := New(&storage.StaticKVStoreProvider{Store: db}).(*store)
@@ -1034,6 +1125,18 @@ func TestVerifC10(t *testing.T) {
 						at := pos + 1 + rng.Intn(len(arrival)-pos)
 						arrival = append(arrival[:at], append([]int{arrival[pos]}, arrival[at:]...)...)
 						fail = append(fail[:at], append([]int{0}, fail[at:]...)...)
+					}
+				}
+			}
+			if len(arrival) >= 2 && rng.Intn(3) == 0 { // two overlapping Adds (forced schedule)
+				if fail == nil {
+					fail = make([]int, len(arrival))
+				}
+				pos := rng.Intn(len(arrival) - 1)
+				if fail[pos] == 0 && fail[pos+1] == 0 {
+					fail[pos] = 52
+					if rng.Intn(4) == 0 {
+						fail[pos] = 51
 					}
 				}
 			}
